@@ -123,7 +123,25 @@ func plan() harness.Plan {
 }
 
 func TestProperty(t *testing.T) {
-	harness.Run(t, plan())
+	p := plan()
+	p.Checks = append(p.Checks, harness.Check{Name: "edge_documents", Prop: propMemory, Rule: "enumerated: every special line as the last line of every context (gen.EdgeDocs), with and without final line ending, LF / CRLF / CR; through Parse and through the streaming parser with one-byte reads"})
+	p.After = func(t *testing.T) {
+		docs := gen.EdgeDocs()
+		harness.EnumerateInputs(t, p, "edge_documents", docs, nil, propMemory)
+		if !t.Failed() {
+			harness.EnumerateInputs(t, p, "edge_documents", docs, func(i int, in []byte) harness.Case {
+				c := harness.Case{In: in}
+				ones := make([]int, len(in))
+				for k := range ones {
+					ones[k] = 1
+				}
+				c.SetL("sched", ones)
+				c.SetI("eofdata", i%2)
+				return c
+			}, propStream)
+		}
+	}
+	harness.Run(t, p)
 }
 
 // FuzzProperty is the native coverage-guided fuzz entry (thorough tier).
